@@ -102,6 +102,14 @@ def case(g, tier, ci):
     elif k < 0.3:
         ops += [{"op": "sq.new", "id": "w"}, {"op": "sq.setSR", "id": "w", "v": enc(SR)},
                 {"op": "sq.addSub", "id": "s", "pos": P + 1, "sub": "w"}, {"op": "sq.check", "id": "s"}]       # an empty subsequence
+    if ci % 10 == 6:
+        # a parent that has no sample rate yet is offered a subsequence (refused: the rates differ), then gets another rate
+        eid = g.fresh("e")
+        ops += [{"op": "sq.new", "id": "late"}, {"op": "sq.new", "id": "lsub"}, {"op": "sq.setSR", "id": "lsub", "v": enc(SR)}]
+        ops += sg.element(eid, SR, 6, list(chans), raw_p=0.0, markers=False, seg_markers=False)
+        ops += [{"op": "sq.addElement", "id": "lsub", "pos": 1, "el": eid}, {"op": "sq.addSub", "id": "late", "pos": 1, "sub": "lsub", "_errclass": True},
+                {"op": "sq.setSR", "id": "late", "v": enc(SR / 4)}, {"op": "sq.check", "id": "late"},
+                {"op": "sq.forge", "id": "late", "delays": True, "filters": True, "time": False}, {"op": "sq.desc", "id": "late"}]
     dl, fl, tm = r.random() < 0.6, r.random() < 0.6, r.random() < 0.4
     ops.append({"op": "sq.forge", "id": "s", "delays": dl, "filters": fl, "time": tm, "_f": "s"})
     for p, (sub, K) in subs.items():
